@@ -32,12 +32,14 @@ Definition scan (src : str) : list token := number_lines (py_lines src) 1.
 Definition pctx := ctx token mstate bstate perror.
 Definition pres := res token mstate bstate perror.
 
-Definition parse_tokens_with (tbl : list st) (stop : bool) (toks : list token) (m : mstate) (b : bstate) : pres unit :=
-  parse token mstate bstate perror tok_is_eof eof_token p_matchf p_bstart p_bend p_bbuild
-        err_same_msg unexpected tbl lookaheads error_cap start_state stop toks
-        (reset_matcher dialects m) (reset_builder b).
+Definition pipeline_params (tbl : list st) : params token mstate bstate perror :=
+  mk_params token mstate bstate perror tok_is_eof eof_token p_matchf p_bstart p_bend p_bbuild
+            Matcher.err_same_msg unexpected tbl Table.lookaheads Table.error_cap Table.start_state.
 
-Definition parse_tokens := parse_tokens_with table.
+Definition parse_tokens_with (tbl : list st) (stop : bool) (toks : list token) (m : mstate) (b : bstate) : pres unit :=
+  parse (pipeline_params tbl) stop toks (reset_matcher dialects m) (reset_builder b).
+
+Definition parse_tokens := parse_tokens_with Table.table.
 
 (* what the caller of Parser.parse observes, plus the state left behind in the
    matcher and builder objects and the number of TokenMatcher.match_* calls *)
@@ -51,24 +53,25 @@ Inductive presult :=
 Definition parse_source (stop : bool) (m : mstate) (b : bstate) (src : str) : presult :=
   match parse_tokens stop (scan src) m b with
   | Ok _ c =>
-    match builder_result (bs _ _ _ _ c) with
-    | Some d => POk d (ms _ _ _ _ c) (bs _ _ _ _ c) (calls _ _ _ _ c)
+    match builder_result (bs c) with
+    | Some d => POk d (ms c) (bs c) (calls c)
     | None => PCrash
     end
-  | Raise1 e c => PErr1 e (ms _ _ _ _ c) (bs _ _ _ _ c) (calls _ _ _ _ c)
-  | RaiseC es c => PErrs es (ms _ _ _ _ c) (bs _ _ _ _ c) (calls _ _ _ _ c)
+  | Raise1 e c => PErr1 e (ms c) (bs c) (calls c)
+  | RaiseC es c => PErrs es (ms c) (bs c) (calls c)
   | Crash _ => PCrash
   | OutOfFuel => POutOfFuel
   end.
 
 (* tokens handed to the builder's build(), in order (TokenFormatterBuilder sees these) *)
 Definition built_tokens (c : pctx) : list token :=
-  flat_map (fun e => match e with EvB t _ => [t] | _ => [] end) (events _ _ _ _ c).
+  flat_map (fun e => match e with EvB t _ => [t] | _ => [] end) (events c).
 
 (* Parser(TokenFormatterBuilder()): a builder that only records tokens and never raises *)
 Definition f_bstart (r : rule) (b : unit) : bres unit perror := BOk b.
 Definition f_bbuild (t : token) (b : unit) : bres unit perror := BOk b.
+Definition fmt_params : params token mstate unit perror :=
+  mk_params token mstate unit perror tok_is_eof eof_token p_matchf f_bstart f_bstart f_bbuild
+            Matcher.err_same_msg unexpected Table.table Table.lookaheads Table.error_cap Table.start_state.
 Definition parse_tokens_fmt (stop : bool) (toks : list token) (m : mstate) : res token mstate unit perror unit :=
-  parse token mstate unit perror tok_is_eof eof_token p_matchf f_bstart f_bstart f_bbuild
-        err_same_msg unexpected table lookaheads error_cap start_state stop toks
-        (reset_matcher dialects m) tt.
+  parse fmt_params stop toks (reset_matcher dialects m) tt.
